@@ -25,7 +25,31 @@ CLASS_FINDING = {
     'toml-inline-section': 'C04-pyproject-dotted-or-inline-sections',
     'yaml-flow': 'C04-yaml-flow-collections',
     'gha-nonregistry': 'C04-gha-docker-and-local-refs',
+    'pnpm-catalog-anywhere': 'C04-pnpm-catalog-key-anywhere',
+    'gha-keys-anywhere': 'C04-gha-steps-or-uses-key-anywhere',
+    'cargo-dotted-path': 'C04-cargo-dotted-path-with-version',
+    'toml-dotted-blanks': 'C04-toml-dotted-key-blanks',
 }
+
+# fixed documents that re-observe listed findings which the generators do not draw: (format, text, class, what the document declares)
+FINDING_CORPUS = [
+    ('pnpm_workspace', 'overrides:\n  catalog:\n    left-pad: 1.0.0\ncatalog:\n  react: ^18.0.0\n', 'pnpm-catalog-anywhere', [('react', '^18.0.0')]),
+    ('github_actions', 'jobs:\n  b:\n    steps:\n      - uses: actions/checkout@v4\n        with:\n          uses: a/b@v1\n', 'gha-keys-anywhere', [('actions/checkout', 'v4')]),
+    ('github_actions', 'jobs:\n  steps:\n    runs-on: x\n    uses: c/d@v2\n', 'gha-keys-anywhere', []),
+    ('cargo_toml', '[dependencies]\nfoo.path = "../foo"\nfoo.version = "1.2.3"\n', 'cargo-dotted-path', []),
+    ('cargo_toml', '[dependencies]\nserde . version = "1.0"\n', 'toml-dotted-blanks', [('serde', '1.0')]),
+]
+
+
+def corpus_docs():
+    out = []
+    for fmt, text, cls, decl in FINDING_CORPUS:
+        d = M.Doc(fmt)
+        d.text = text
+        d.declared = [{'name': n, 'spec': s_, 'hash': None, 'start': None, 'end': None, 'classes': {cls}} for n, s_ in decl]
+        d.classes = {cls}
+        out.append(d)
+    return out
 
 
 def expected_tuple(d):
@@ -83,8 +107,12 @@ def set_oracle(rep, doc, pkgs):
         else:
             unexplained.append(('declared but not checked', t))
     nonreg = doc.meta.get('nonregistry', [])
+    doc_level = doc_classes & {'pnpm-catalog-anywhere', 'gha-keys-anywhere', 'cargo-dotted-path', 'toml-dotted-blanks'}
     for t in extra.elements():
         ok = False
+        if doc_level:
+            used.update(doc_level)      # a document of the fixed finding corpus: the whole document is the class
+            ok = True
         for x in nonreg:
             if x.get('class') and (x.get('name') in (None, t[0])) and (x['value'] == t[1] or x['value'].split('@', 1)[-1] == t[1] or t[1] in x['value']):
                 used.add(x['class'])
@@ -145,6 +173,7 @@ def run(tier, seed):
     for fmt, g in M.GENERATORS.items():
         for _ in range(per):
             docs.append(g(rnd))
+    docs += corpus_docs()
     pairs = [(d.fmt, d.text) for d in docs]
     outs, err = P.run_docs(pairs)
     if err:
